@@ -355,8 +355,7 @@ Proof.
   assert (E1 : fst (acct_defaults X w (Some net') (Some acct)) = net') by reflexivity.
   assert (E2 : snd (acct_defaults X w (Some net') (Some acct)) = acct) by reflexivity.
   rewrite E1, E2 in H. clear E1 E2. simpl opt_default in H. rewrite Hcoin in H. cbv zeta in H.
-  destruct ((negb (w_root_private (ws_cfg w)) || negb (w_root_depth (ws_cfg w) =? 0)) &&
-            negb (wtype_eqb wt' (w_wt (ws_cfg w))))%bool; [discriminate|].
+  destruct (kfp_witness_guard _ _ _ _ _); [discriminate|].
   match type of H with (if ?c then _ else _) = _ => destruct c; [discriminate|] end.
   match type of H with match ?o with Some _ => _ | None => _ end = _ => destruct o as [purpose|] eqn:Hpur; [|discriminate] end.
   rewrite (expand_doc _ _ _ coin acct chg ai Hsh Hpur) in H.
